@@ -374,7 +374,7 @@ Definition c03_alphabet (sa : bool) : list qop :=
     OCommit 1 (1, 1, 1) (TUser 1) [f4_r3] sa no_faults;
     OCommit 1 (1, 1, 1) (TUser 2) [f4_r2] sa no_faults;
     OCommit 1 (1, 1, 1) (TUser 2) [f4_r2; f4_r3] sa no_faults;
-    OCommit 1 (1, 1, 1) (TUser 3) [Rec (TUser 9) 2 2 99 1 false 1] sa (Flt [1; 2; 3] [] None);
+    OCommit 1 (1, 1, 1) (TUser 3) [Rec (TUser 9) 2 2 99 1 false 1] sa (Flt [1; 2; 3] [] None []);
     ORestart 1;
     OInstall 1 (1, 1, 1) false 2 no_faults ].
 
